@@ -106,6 +106,7 @@ func run(r *mon.Report, tier string, idx int, rng *rand.Rand) {
 	}
 	caseDesc := map[string]any{"case": idx, "options": optDesc, "world": s.Desc, "providerPolicy": e.Provider.Policy}
 	var claims []*claimState
+	var lastPlaced []placedOn
 	history := []string{}
 	maxPasses := 3 + rng.Intn(6)
 	for pass := 1; pass <= maxPasses; pass++ {
@@ -128,6 +129,34 @@ func run(r *mon.Report, tier string, idx int, rng *rand.Rand) {
 		} else {
 			var res provscheduling.Results
 			var err error
+			// interleaving: kube-scheduler binds a pending pod to the node the previous pass chose for it, and the informer
+			// tells cluster state, right after this pass has listed the pending pods (i.e. between the pass' reads)
+			boundDuringPass = ""
+			if len(lastPlaced) > 0 && rng.Intn(3) == 0 {
+				armed := true
+				e.API.PostRead = []func(verb, kind, caller string){func(verb, kind, caller string) {
+					if !armed || verb != "list" || kind != "Pod" {
+						return
+					}
+					armed = false
+					for _, pl := range lastPlaced {
+						cur := &corev1.Pod{}
+						node := &corev1.Node{}
+						if e.API.Raw.Get(context.Background(), client.ObjectKeyFromObject(pl.pod), cur) != nil || cur.Spec.NodeName != "" || cur.DeletionTimestamp != nil {
+							continue
+						}
+						if e.API.Raw.Get(context.Background(), types.NamespacedName{Name: pl.node}, node) != nil || node.DeletionTimestamp != nil {
+							continue
+						}
+						e.Bind(cur, pl.node)
+						_ = e.SyncState()
+						boundDuringPass = string(cur.UID)
+						r.Inc("pods_bound_between_the_reads_of_a_pass")
+						history = append(history, fmt.Sprintf("pass%d:%s bound to %s right after the pending-pod list", pass, cur.Name, pl.node))
+						return
+					}
+				}}
+			}
 			if p, v, st := mon.Guard(func() { res, err = e.Prov.Schedule(e.Ctx) }); p {
 				r.Violate("panic-in-schedule", fmt.Sprintf("Schedule panicked: %v", v), caseDesc, st)
 				return
@@ -136,7 +165,17 @@ func run(r *mon.Report, tier string, idx int, rng *rand.Rand) {
 				r.Inc("schedule_errors")
 				return
 			}
+			e.API.PostRead = nil
 			judge(r, s, res, claims, pass, caseDesc, history)
+			lastPlaced = lastPlaced[:0]
+			for _, en := range res.ExistingNodes {
+				if en.Node == nil {
+					continue
+				}
+				for _, p := range en.Pods {
+					lastPlaced = append(lastPlaced, placedOn{p, en.Node.Name})
+				}
+			}
 			for _, nc := range res.NewNodeClaims {
 				name, err := e.Prov.Create(e.Ctx, nc)
 				if err == nil {
@@ -168,6 +207,14 @@ func run(r *mon.Report, tier string, idx int, rng *rand.Rand) {
 		}
 	}
 }
+
+type placedOn struct {
+	pod  *corev1.Pod
+	node string
+}
+
+// boundDuringPass: UID of the pod the harness bound between the reads of the current pass ("" none).
+var boundDuringPass string
 
 // checkGate: while a created NodeClaim is unlaunched, Provisioner.Reconcile must not run a scheduling pass.
 func checkGate(r *mon.Report, e *world.Env, cs map[string]any, history []string) {
@@ -364,7 +411,17 @@ func judge(r *mon.Report, s *common.Scenario, res provscheduling.Results, claims
 				if !allTaintsTolerated(p, t.cn.Taints) {
 					continue
 				}
-				if ar := oracle.AdmitAllEx(t.cn, []*corev1.Pod{eff}, t.load, t.daemon); ar.OK {
+				load := t.load
+				if string(p.UID) == boundDuringPass {
+					// the pod was bound (to this or another node) while the pass ran: its own binding is not load it competes with
+					load = nil
+					for _, q := range t.load {
+						if q.UID != p.UID {
+							load = append(load, q)
+						}
+					}
+				}
+				if ar := oracle.AdmitAllEx(t.cn, []*corev1.Pod{eff}, load, t.daemon); ar.OK {
 					key := "new-claim-although-existing-node-admits:" + t.kind
 					r.Violate(key, fmt.Sprintf("pass %d: pod %s was put on a new NodeClaim although existing node %s (%s) admits it alongside its final load of %d pods", pass, p.Name, t.cn.Name, t.kind, len(t.load)),
 						cs, map[string]any{"history": history, "node": t.cn, "pod": p.Spec, "load": names(t.load), "pendingDaemons": names(t.daemon)})
